@@ -738,6 +738,10 @@ def _d_int(acc):
 
                 def okm(s_):
                     advance(s_)
+                    if len(v.terms) == 1 and v.terms[0][1] == 1 and v.c == 0:
+                        from .absint import iv_and
+                        sy = v.terms[0][0]
+                        s_.ranges[sy] = iv_and(s_.ranges[sy], tr)   # the accessor returned Ok: the value is in its range
                 return Fork([(okm, ok(v)), (None, err(_derr(m.prog, 'Overflow', [Atom('n')])))])
             kr = ty_range(kind) if kind != 'int' else None
             advance(st)
